@@ -10,7 +10,7 @@ use super::{
     SyncCommand, SyncError, responder::SyncResponseMessage, wire::SyncType,
 };
 use crate::{
-    Address, GraphId, LocatedAddress, Location, TraversalBuffer,
+    Address, GraphId, LocatedAddress, Location, Prior, TraversalBuffer,
     storage::{Segment as _, Storage as _, StorageError, StorageProvider},
 };
 
@@ -235,6 +235,19 @@ impl SyncRequester {
                 let mut result = Vec::new();
                 let mut start: usize = 0;
                 for meta in commands {
+                    // A command's max cut is its parents' highest max cut plus
+                    // one, so a parent address without a successor cannot belong
+                    // to any command. Reject it here, at the wire boundary,
+                    // instead of handing it to the client.
+                    let parent_has_successor = match meta.parent {
+                        Prior::None => true,
+                        Prior::Single(p) => p.max_cut.checked_add(1).is_some(),
+                        Prior::Merge(l, r) => l.max_cut.max(r.max_cut).checked_add(1).is_some(),
+                    };
+                    if !parent_has_successor {
+                        return Err(SyncError::MalformedResponse);
+                    }
+
                     let policy_len = meta.policy_length as usize;
 
                     let policy = match policy_len == 0 {
